@@ -20,6 +20,8 @@ import (
 	"path/filepath"
 	"regexp"
 	"sort"
+	"strings"
+	"sync"
 
 	"github.com/folbricht/desync"
 
@@ -415,6 +417,53 @@ func main() {
 				obj(len(res["bad"].([]interface{})) == 0, fmt.Sprintf("fixture store %s not readable by %s: %v", fx, filepath.Base(bin), res["bad"]))
 			}
 		}
+	}
+	// two clients of one directory, one per format, store the same chunk at the same time (several writers each): every call succeeds,
+	// and afterwards both files exist, each in its own format
+	for round := 0; round < 12; round++ {
+		base := filepath.Join(*dir, "racing")
+		os.RemoveAll(base)
+		os.MkdirAll(base, 0755)
+		d := make([]byte, 200000+r.Intn(800000))
+		r.Read(d[:len(d)/2]) // half random, half zeros: the two formats differ in length
+		id := desync.NewChunk(d).ID()
+		cs, _ := desync.NewLocalStore(base, desync.StoreOptions{})
+		us, _ := desync.NewLocalStore(base, desync.StoreOptions{Uncompressed: true})
+		var wg sync.WaitGroup
+		errs := make([]error, 6)
+		for k := 0; k < 6; k++ {
+			wg.Add(1)
+			go func(k int) {
+				defer wg.Done()
+				if k%2 == 0 {
+					errs[k] = cs.StoreChunk(desync.NewChunk(d))
+				} else {
+					errs[k] = us.StoreChunk(desync.NewChunk(d))
+				}
+			}(k)
+		}
+		wg.Wait()
+		allOK := true
+		for _, e := range errs {
+			allOK = allOK && e == nil
+		}
+		obj(allOK, "concurrent StoreChunk of one chunk by a compressed and an uncompressed client of the same directory: a call failed")
+		sid := id.String()
+		raw, rerr := os.ReadFile(filepath.Join(base, sid[:4], sid))
+		obj(rerr == nil && bytes.Equal(raw, d), "after concurrent stores by both clients the uncompressed chunk file does not hold the chunk's bytes")
+		cb, cerr := os.ReadFile(filepath.Join(base, sid[:4], sid+".cacnk"))
+		dec, derr := desync.Decompress(nil, cb)
+		obj(cerr == nil && derr == nil && bytes.Equal(dec, d) && singleFrame(cb), "after concurrent stores by both clients the compressed chunk file is not one zstd frame of the chunk")
+		c1, e1 := cs.GetChunk(id)
+		c2, e2 := us.GetChunk(id)
+		obj(classGet(c1, e1, d) == "ok" && classGet(c2, e2, d) == "ok", "after concurrent stores a client cannot read its own chunk back")
+		left := 0
+		for _, p := range listAll(base) {
+			if strings.Contains(filepath.Base(p), ".tmp") {
+				left++
+			}
+		}
+		obj(left == 0, "temporary files left behind by successful concurrent stores")
 	}
 	if err := w.Close(); err != nil {
 		fmt.Fprintln(os.Stderr, err)
